@@ -141,7 +141,7 @@ func fxSnap(ctx context.Context, fs FileSystem) (map[string]string, error) {
 			return fmt.Errorf("stat %s: %v", p, err)
 		}
 		if !fi.IsDir() {
-			b, err := io.ReadAll(f)
+			b, err := fxReadAll(f)
 			if err != nil {
 				return fmt.Errorf("read %s: %v", p, err)
 			}
@@ -166,6 +166,31 @@ func fxSnap(ctx context.Context, fs FileSystem) (map[string]string, error) {
 		return nil
 	}
 	return out, walk("/")
+}
+
+// fxReadAll is io.ReadAll that gives up on a reader that makes no progress
+// (returns 0, nil forever) instead of spinning.
+func fxReadAll(r io.Reader) ([]byte, error) {
+	var out []byte
+	buf := make([]byte, 256)
+	idle := 0
+	for {
+		n, err := r.Read(buf)
+		out = append(out, buf[:n]...)
+		if err == io.EOF {
+			return out, nil
+		}
+		if err != nil {
+			return out, err
+		}
+		if n == 0 {
+			if idle++; idle > 3 {
+				return out, fmt.Errorf("Read keeps returning (0, nil) after %d bytes", len(out))
+			}
+		} else {
+			idle = 0
+		}
+	}
 }
 
 func fxDiff(a, b map[string]string) string {
